@@ -21,7 +21,18 @@ SPEC = {
                  "number rules. The model is tied to cincoconfig/fields/*.py and core.py by running validate, validate again, "
                  "to_basic, to_python and validate on the same field options and values and comparing every outcome and value "
                  "(with exact types) inside Coq; a direct oracle checks determinism, idempotence, the round trip and an "
-                 "independent re-statement of the declared constraints in both directions on the implementation alone."),
+                 "independent re-statement of the declared constraints in both directions on the implementation alone. "
+                 "FilenameField and UrlField (coq/theories/FileFields.v, 11 of the 33 theorems): _validate modelled statement by "
+                 "statement over the StringField pipeline with the file system, the os.path algebra and urlparse as oracle "
+                 "arguments; for ALL such oracles: exact acceptance and stored value (accepted iff the text passes the string "
+                 "pipeline and is empty, or the existence mode None/True/False/dir/file holds of the resolved path; stored = the "
+                 "resolved path: the text itself when absolute or no start directory, else abspath(expanduser(join(startdir, "
+                 "text)))), soundness against file_meets, idempotence and the on-disk round trip under the only os.path fact "
+                 "'abspath returns an absolute path' when the stored path passes the field's own string options unchanged "
+                 "(always so without string options; C05_filefields_idem_partial: everywhere outside known_F56 and F13), and a "
+                 "proved refutation inside the open finding F56 (C05_file_validate_idem_refuted: startdir + transform_case); UrlField accepted iff urlparse succeeds with a non-empty scheme, idempotent outside "
+                 "F13. Tied to file_field.py / url_field.py by the `filefields` stream: real directory layouts with a decoy "
+                 "working directory, per-case tables of the os.path / urlparse answers obtained directly."),
         "note": ("Trusted: Coq kernel + vm_compute; the correspondence harness; Python facts measured in notes/semantics.md "
                  "(whitespace sets, int()/float() grammar, ipaddress grammar, bytes.fromhex/base64 behaviour on the modelled "
                  "shapes). User regexes are an oracle argument (semantics of re.match not modelled). No axioms."),
@@ -35,14 +46,25 @@ SPEC = {
              "token tables in several casings, prefixes 0/1/31/32/33 with and without host bits, octets 0/255/256/01, strings "
              "with surrounding whitespace incl. \\x1c-\\x1f and non-ASCII spaces, char-set strips, on-disk texts for hex/base64), "
              "then seeded random fields (depth <= 2) with boundary-biased values and on-disk documents. A case is non-trivial "
-             "when the value is not None and lies inside the modelled domain; distinct = distinct (field options, op, value)"),
+             "when the value is not None and lies inside the modelled domain; distinct = distinct (field options, op, value). "
+             "filefields: every exists mode x start directory absent/present x 22 names (files, directories, missing, decoy-only "
+             "names that exist only in the working directory, absolute names, '.', '..' segments, trailing '/', surrounding "
+             "whitespace with transform_strip) in a fresh layout where the process works in a directory different from the "
+             "start directory; 14 URL texts x required; wrong types; then random combinations; each case carries the table of "
+             "os.path / urlparse answers for every path the model may ask about (missing row = Unmodelled = disagreement)"),
     "trusted_base": [KERNEL, "Print Assumptions: closed under the global context (no axioms)", TIE, HARNESS,
                      "modelled, not verified: CPython semantics of str.strip/lower/upper (ASCII + whitespace set), int()/float() "
                      "on ASCII text, float rounding of ints (SpecFloat binary_normalize), ipaddress text grammar, str.encode "
                      "(UTF-8), bytes.hex/fromhex, base64 on canonical text -- all exercised against the interpreter by the "
                      "`fields` stream on every run",
                      "user regexes (re.match): an oracle table per case, answered by Python's re directly; theorems hold for "
-                     "every oracle"],
+                     "every oracle",
+                     "FilenameField / UrlField: os.path.isabs / join / expanduser / abspath / exists / isdir / isfile and "
+                     "urllib.parse.urlparse (scheme, or 'raised') are oracle arguments of the model (per-case tables answered by "
+                     "os.path / urllib directly, never through cincoconfig); the theorems hold for every oracle; assumed of "
+                     "os.path only where named: abspath_absolute (isabs(abspath p)) and isabs('') = False for idempotence; POSIX "
+                     "path separator (the `os.path.sep == '\\\\'` branch is outside the model); the file system does not change "
+                     "between two validations"],
     "assumptions": [
         "idempotence is stated outside the open finding F13 (string-like field with a character-set strip AND a case transform); "
         "C05_validate_idem_refuted proves the violation inside it",
@@ -52,7 +74,12 @@ SPEC = {
         "an unset (None) typed list/dict comes back as the empty container (allowed by property C02; lemma "
         "C05_unset_typed_container)",
         "'equal value' is structural equality with exact types (NaN equals NaN, -0.0 differs from 0.0)",
-        "outside the model (Unmodelled, counted as may-unmodelled in the evidence): FilenameField/UrlField/ChallengeField/"
+        "FilenameField idempotence / round trip are stated outside the open finding F56: known_F56 f = a non-empty start "
+        "directory together with an inherited string option (transform_case / transform_strip / min_len / max_len / regex / "
+        "choices); C05_file_validate_idem_refuted proves the violation inside it; the `filefields` stream exercises the region "
+        "(each option x start directory x relative / absolute names x modes) and classifies an idempotence / round-trip failure "
+        "as F56 exactly when a start directory is set, the field carries a string option and the name is relative",
+        "outside the model (Unmodelled, counted as may-unmodelled in the evidence): ChallengeField/"
         "SecureField/IncludeField (C03/C09), HostnameField(resolve=True), netmask-form CIDR, non-ASCII cased letters under a "
         "case transform, non-ASCII digits and fractional/exponent float text, non-canonical base64 text, float/tuple dict keys, "
         "proxies of a different field",
